@@ -14,7 +14,7 @@ for n in names:
     meta = json.load(open(d + '/meta.json'))
     prop = meta['breaks_property']
     if meta.get('out_of_domain'):
-        rows.append((n, prop, 'not claimed: needs a mesh that Mesh.is_valid() rejects', 'see meta.json'))
+        rows.append((n, prop, meta.get('out_of_domain_short', 'not claimed: outside the domain of the property'), 'see meta.json'))
         print(rows[-1], flush=True)
         continue
     if meta.get('neutralised_by_fix'):
